@@ -26,14 +26,15 @@ ASSUMPTIONS = [
     'planet_sma is a documented alias of planet_distance and follows it; when both names are fitted the one later in fitting order determines the value',
     'bounds and values are positive (log modes are defined for them)',
 ]
-REQUIRED = {'observation:derived-only': 0.1, 'recompile-after-change': 0.3, 'prior-mode-mismatch': 0.08, 'derived-toggled': 0.2, 'has-update': 0.3,
+RULE = RULE + ' ' + 'Also: bounds moved by 1e-9..1e-4 relative or of trace size after a compile; update_model handed a float64 ndarray twice (the vector must be left as given and a second write must change nothing).'
+REQUIRED = {'rejected-mode-on-log-parameter': 0.05, 'observation:derived-only': 0.1, 'recompile-after-change': 0.3, 'prior-mode-mismatch': 0.08, 'derived-toggled': 0.2, 'has-update': 0.3,
             'unknown-name': 0.1, 'bounds-nudged-after-compile': 0.04, 'tiny-bounds-after-compile': 0.03}
 # coverage-guided extra (thorough tier): pure-Python taurex modules on this property's path, instrumented by atheris
 FUZZ = {'include': ['taurex.optimizer.optimizer', 'taurex.core', 'taurex.data.fittable'], 'runs': 12000, 'workers': 4}
 
 PRIORS = ['Uniform', 'LogUniform', 'Gaussian', 'LogGaussian']
 OPS = ['enable_fit', 'compile', 'set_boundary', 'set_mode', 'set_prior', 'update', 'disable_fit', 'set_factor_boundary',
-       'enable_derived', 'disable_derived', 'compile', 'unknown', 'enable_fit', 'update']
+       'enable_derived', 'disable_derived', 'compile', 'unknown', 'enable_fit', 'update', 'bad_mode']
 
 
 @st.composite
@@ -64,6 +65,8 @@ def _op(draw, kind=None):
             d['args'] = {'mean': draw(st.floats(-3, 3)), 'std': draw(st.floats(0.1, 2.0))}
     elif op == 'update':
         d['u'] = draw(st.lists(st.floats(0.05, 0.95), min_size=14, max_size=14))
+    elif op == 'bad_mode':
+        d['mode'] = draw(st.sampled_from(['log10', 'ln', '', 'lin', 'Logarithmic']))
     elif op == 'unknown':
         d['api'] = draw(st.sampled_from(['enable_fit', 'disable_fit', 'set_mode', 'set_boundary', 'set_factor_boundary',
                                          'set_prior', 'enable_derived', 'disable_derived']))
@@ -71,7 +74,7 @@ def _op(draw, kind=None):
 
 
 SETTING_OPS = ['set_prior', 'enable_fit', 'set_boundary', 'set_mode', 'enable_fit', 'set_prior', 'disable_fit',
-               'set_factor_boundary', 'enable_derived', 'disable_derived', 'unknown']
+               'set_factor_boundary', 'enable_derived', 'disable_derived', 'unknown', 'bad_mode', 'bad_mode']
 
 
 @st.composite
@@ -249,6 +252,19 @@ def check(case):
                 out.cls('derived-toggled')
                 cut(out, 'disable_derived@%s' % ('model' if d in m.derivedParameters else 'observation'), opt.disable_derived, d)
                 dsettings[d] = False
+                changed_since = True
+            elif name == 'bad_mode':
+                # a mode that is neither 'log' nor 'linear' is refused -- and a refused call changes nothing: the settings,
+                # and every view compiled from them afterwards, are those in force before it
+                out.cls('rejected-mode')
+                out.applies('rejected-call-changes-nothing')
+                try:
+                    opt.set_mode(p, op['mode'])
+                    out.fail('rejected-call-changes-nothing@accepted', 'set_mode(%r, %r) was accepted' % (p, op['mode']))
+                    settings[p]['mode'] = op['mode'].lower()
+                except Exception:
+                    if settings[p]['mode'] == 'log':
+                        out.cls('rejected-mode-on-log-parameter')
                 changed_since = True
             elif name == 'unknown':
                 out.cls('unknown-name')
